@@ -3,4 +3,4 @@
 From Coq Require Import Extraction ExtrOcamlBasic ZArith List.
 From Acme.C19 Require Import Model.
 Extraction Language OCaml.
-Extraction "extracted/c19_model.ml" empty step run inorder intersects can_update root size.
+Extraction "extracted/c19_model.ml" empty step run inorder items intersects can_update root size.
